@@ -72,6 +72,20 @@ Fixpoint append_all (w : wal) (rs : list (byte * bytes)) : wal * list (N * N) :=
       (w2, i :: is)
   end.
 
+(** The EntryInfo positions depend on the payload lengths only: [place] is
+    ensureCapacity + the offset bookkeeping of AppendRecords on lengths
+    (Proofs/WalProofs.v: place_spec).  Used by the correspondence for records too
+    large to carry as literals. *)
+Fixpoint place (segsize id size : N) (lens : list N) : list (N * N) * (N * N) :=
+  match lens with
+  | [] => ([], (id, size))
+  | l :: lens' =>
+      let need := l + 9 in
+      let '(id', size') := if size + need <=? segsize then (id, size) else (id + 1, 0) in
+      let '(is, fin) := place segsize id' (size' + need) lens' in
+      ((id', size') :: is, fin)
+  end.
+
 (** Replay *)
 Record rinfo := { i_seg : N; i_off : N; i_ty : byte; i_payload : bytes }.
 Inductive rerr := RErrCrc | RErrEmpty | RErrFuel.
